@@ -1074,6 +1074,17 @@ def e2e_replay(case):
         shutil.rmtree(top, ignore_errors=True)
 
 
+def SETUP(tier):
+    """Run once in the parent: sweep scratch directories left by workers of an earlier run that were killed
+    (time cap / pool.terminate) before their `finally` ran.  Only directories of this property whose pid is dead."""
+    import re
+
+    for name in os.listdir("/dev/shm"):
+        m = re.fullmatch(r"verif-C33-(\d+)", name)
+        if m and not os.path.exists(f"/proc/{m.group(1)}"):
+            shutil.rmtree(os.path.join("/dev/shm", name), ignore_errors=True)
+
+
 # ------------------------------------------------------------------ classifiers for known findings
 def _c_doman_i18n(case):
     """doman -i18n=<lang>: the option is declared store_true (internal error) and ignored before EAPI 4."""
